@@ -212,7 +212,7 @@ def run(ctx):
                 bi.initialized_size = n
                 after = "initialized_size=%d" % n
             elif op == "write":
-                if not model:
+                if not model or not isinstance(bi.contents, bytearray):
                     continue
                 i, v = rnd.randrange(len(model)), rnd.randrange(256)
                 model[i] = v
@@ -224,7 +224,11 @@ def run(ctx):
                 new = bytes(rnd.randrange(256) for _ in range(n))
                 model[:] = new
                 case.ops.append({"op": "contents", "len": n})
-                bi.contents = rnd.choice([bytearray(new), bytearray(new)])
+                kind = rnd.choice(["bytearray", "bytearray", "bytes"])
+                ctx.count("contents_assigned_as:" + kind)
+                case.ops[-1]["as"] = kind
+                bi.contents = {"bytearray": bytearray,
+                               "bytes": bytes}[kind](new)
                 after = "contents assignment"
             elif op == "blk":
                 if not blocks:
